@@ -2,18 +2,21 @@
 import math
 from fractions import Fraction
 
-from vcheck import Case, gz, gzlist, gnlist, gnmat, gnat, gopt
+from vcheck import Case, gz, gzlist, gnlist, gnmat, gnat, gopt, gq
 import tgen
 from props import c12_util as U
 
 PROP = "C12"
 LEVEL = "proof"
 GEN_UNITS = ["GenHandles"]
-COQ_TARGETS = ["Props/C12.vo", "Model/C12Harness.vo", "Model/Harness.vo"]
+COQ_TARGETS = ["Props/C12.vo", "Model/C12Harness.vo", "Proofs/C12Mttkrps.vo", "Proofs/C12Setup.vo", "Model/Harness.vo"]
 THEOREM_FILES = ["Props/C12.v"]
-COQ_IMPORTS = ("From Coq Require Import List ZArith Bool.\n"
-               "From PV Require Import Base.Index Np.Array Model.Sparse Model.Repr Model.Harness Model.C12Gcp Model.C12Harness.\n")
-RULE = ("N-way shapes (N = 2..4, sizes 1..4, singleton modes, <= 48 cells), ranks 1..3, integer factors / data / masks, "
+COQ_IMPORTS = ("From Coq Require Import List ZArith Bool QArith Qcanon.\n"
+               "From PV Require Import Base.Index Np.Array Model.Sparse Model.Repr Model.Harness Model.C12Gcp Model.C12Harness Proofs.C12Mttkrps.\n"
+               "Set Warnings \"-ambiguous-paths\".\nFrom PV Require Import Proofs.C12Setup.\n")
+RULE = ("N-way shapes (N = 2..4, sizes 1..4, singleton modes, <= 48 cells) plus skewed 4-way shapes on both sides of min_split "
+        "((6,2,2,3), (2,2,3,8), (4,1,2,2), (2,2,2,5)) and 5-way shapes, ranks 1..3, integer factors / data / masks, "
+        "component-weight vectors all-ones / mixed (some exactly 1, some not) / all-non-unit under lambda_check True and False, "
         "4 polynomial (loss, derivative) pairs so float64 results are exact; samples with repeats and correction ranges; "
         "the ten real losses at a grid of rational points through an evaluator of the generated Gallina text; "
         "non-trivial = more than one cell and data and factors not all zero; distinct = distinct (op,args)")
@@ -21,9 +24,16 @@ EXPLANATION = ("T1 theorems are stated over Gen/GenHandles.v, regenerated from p
                "R is not computable in Coq, so the numeric tie of the ten real handles is: the generated Gallina text is "
                "parsed and evaluated by tools/props/c12_util.py (an evaluator independent of the translator) and compared at "
                "1e-9 with pyttb's handles at the same points. fg.evaluate / fg_est.estimate / tensor.mttkrps are compared "
-               "exactly (integers) with the executable model Model/C12Gcp.v, about which T2 is proved.")
-CORRESPONDENCE_ONLY = ["tensor.mttkrps (the split / partial-contraction algorithm itself is compared with the per-mode definition "
-                       "on generated inputs; the theorems are about the definition)"]
+               "exactly (integers) with the executable model Model/C12Gcp.v, about which T2 is proved; estimate_lam = fg_est.estimate on "
+               "models with all-ones / mixed / all-non-unit component weights under both lambda_check settings, compared with the exact "
+               "evaluation of the same model (1e-9, the normalisation introduces square roots); setup = fg_setup.setup over all ten "
+               "objectives against the table of Proofs/C12Setup.v.")
+CORRESPONDENCE_ONLY = ["tensor.mttkrps: the byte-level numpy reshapes (the split / partial-contraction algorithm itself is proved equal to the "
+                       "per-mode definition for every split index in Proofs/C12Mttkrps.v at the level of partial contractions; that model, "
+                       "evaluated at min_split, is compared with pyttb on generated inputs incl. skewed 4-way and 5-way shapes)",
+                       "fg_setup.setup: hand model of the objective table (Proofs/C12Setup.v) tied by correspondence over all ten objectives",
+                       "fg_est.estimate(lambda_check=True): ktensor.normalize(0) is taken as 'unit column norms, weight * norms absorbed into mode 0' "
+                       "(norms computed by the harness), everything downstream is the exact model"]
 ASSUMPTIONS = ["models have at least two modes (fg.evaluate and fg_est.estimate raise on 1-way models)",
                "real functions ln/exp/PI are the mathematical ones; EPS is the exact rational 1/10^10; IEEE rounding not modelled"]
 
@@ -39,10 +49,16 @@ def gen_cases(rng, tier):
     cases = []
     shapes = [s for s in tgen.shapes_upto(8, maxn=3, minn=2)]
     shapes += [tuple(tgen.rand_shape(rng, maxn=4, maxcells=48, maxdim=4, minn=2)) for _ in range(60 if big else 14)]
+    # >= 4 modes with skewed sizes (min_split = 0 / 2 / 3: two or more matrices in the middle Khatri-Rao product of mttkrps) and 5 modes
+    many = [(6, 2, 2, 3), (2, 2, 3, 8), (4, 1, 2, 2), (2, 2, 2, 5), (2, 2, 2, 2, 2), (2, 3, 2, 3, 2), (2, 1, 2, 2, 3), (1, 2, 2, 2, 6)]
+    if big:
+        many += [(3, 1, 1, 2, 2), (7, 2, 3, 2), (2, 3, 2, 9), (2, 2, 2, 2, 3), (2, 2, 1, 2, 2, 2)]
+        many += [tuple(rng.choice([1, 2, 2, 3]) for _ in range(5)) for _ in range(6)]
+    shapes += many
     for shp in shapes:
         n = math.prod(shp)
         for rep in range(2 if big else 1):
-            R = rng.randint(1, 3)
+            R = rng.randint(1, 3) if n <= 48 else rng.randint(1, 2)
             fac = _rand_factors(rng, shp, R)
             lam = [1] * R if rng.random() < 0.6 else [rng.randint(-2, 3) for _ in range(R)]
             data = tgen.rand_dense(rng, shp, rng.choice([0.3, 0.7, 1.0]), -3, 4)
@@ -65,6 +81,54 @@ def gen_cases(rng, tier):
             cases.append(Case("estimate_full", {"shape": list(shp), "R": R, "factors": fac, "data": data,
                                                 "fid": rng.randrange(NFID)}, nt))
             cases.append(Case("mttkrps", {"shape": list(shp), "R": R, "factors": fac, "data": data}, nt))
+    # fg_est.estimate and the model's component weights: all-ones / mixed / all-non-unit under both lambda_check settings,
+    # on the full subscript set with unit sample weights (compared with the exact evaluation of the same model) and on samples
+    lam_shapes = [(2, 3), (3, 2, 2), (2, 2, 3), (4, 2), (2, 2, 2, 2), (3, 1, 2)]
+    for shp in lam_shapes if not big else lam_shapes * 3 + [(2, 3, 4), (5, 2)]:
+        n = math.prod(shp)
+        for R in ((2, 3) if not big else (1, 2, 3)):
+            for kind in ("ones", "mixed", "mixed", "nonunit"):
+                if kind == "ones":
+                    lam = [1] * R
+                elif kind == "nonunit":
+                    lam = [rng.choice([-2, 2, 3, 5]) for _ in range(R)]
+                else:
+                    lam = [1] + [rng.choice([-3, 2, 3, 4]) for _ in range(R - 1)]
+                    rng.shuffle(lam)
+                    if R >= 3 and rng.random() < 0.5:
+                        lam[rng.randrange(R)] = 1
+                    if R == 1:
+                        lam = [rng.choice([2, -3])]
+                fac = _rand_factors(rng, shp, R, -2, 3)
+                if rng.random() < 0.8:          # no all-zero columns most of the time
+                    for A in fac:
+                        for r in range(R):
+                            if not any(row[r] for row in A):
+                                A[0][r] = 1
+                data = tgen.rand_dense(rng, shp, 0.8, -3, 4)
+                for lcheck in (True, False):
+                    fid = rng.randrange(NFID)
+                    cases.append(Case("estimate_lam", {"shape": list(shp), "R": R, "factors": fac, "lam": lam, "lcheck": lcheck,
+                                                       "mode": "full", "data": data, "fid": fid, "kind": kind}, True))
+                    ns = rng.randint(2, 6)
+                    subs = [[rng.randrange(d) for d in shp] for _ in range(ns)]
+                    cases.append(Case("estimate_lam", {"shape": list(shp), "R": R, "factors": fac, "lam": lam, "lcheck": lcheck,
+                                                       "mode": "sample", "subs": subs, "xs": [rng.randint(-3, 4) for _ in range(ns)],
+                                                       "ws": [rng.randint(-1, 3) for _ in range(ns)],
+                                                       "crng": None if rng.random() < 0.5 else list(range(rng.randint(0, ns))),
+                                                       "fid": fid, "kind": kind}, True))
+    # fg_setup.setup: all ten objectives x (no data / dense / sparse data of every class) x (extra parameter given or not)
+    datasets = [None]
+    classes = {"binary": [0, 2, 2, 0], "binary1": [2, 2], "natural": [0, 4, 6, 2], "negint": [-2, 4], "positive": [1, 3, 5],
+               "with_zero": [3, 0, 2], "negative": [3, -1, 2], "fraction": [2, 1], "big": [2, 4, 14]}
+    for nm, hs in classes.items():
+        datasets.append({"sparse": False, "halves": hs, "cls": nm})
+        if all(h != 0 for h in hs):
+            datasets.append({"sparse": True, "halves": hs, "cls": nm})
+    for obj in range(10):
+        for d in datasets:
+            for hp in (True, False):
+                cases.append(Case("setup", {"obj": obj, "data": d, "has_param": hp}, True))
     # the ten real losses at rational points (both sides of every switch: huber threshold, data 0/1, m = 0)
     for name in U.HANDLES:
         pts = U.grid(name, rng, 40 if big else 12)
@@ -86,12 +150,16 @@ def run_impl(c):
     try:
         if c.op == "handle":
             return {"vals": U.run_handles(a["name"], a["pts"])}
+        if c.op == "setup":
+            return U.run_setup(a)
         fac = [np.array(A, dtype=float).reshape((len(A), a["R"])) for A in a["factors"]]
         if c.op == "mttkrps":
             T = tgen.mk_tensor(ttb, np, a["shape"], a["data"])
             G = T.mttkrps([x.copy() for x in fac])
             one = [T.mttkrp([x.copy() for x in fac], k) for k in range(len(a["shape"]))]
-            return {"G": [tgen.obs_matrix(np, x) for x in G], "one": [tgen.obs_matrix(np, x) for x in one]}
+            from pyttb.tensor import min_split
+            return {"G": [tgen.obs_matrix(np, x) for x in G], "one": [tgen.obs_matrix(np, x) for x in one],
+                    "split": int(min_split(tuple(a["shape"])))}
         lam = np.array(a.get("lam", [1] * a["R"]), dtype=float)
         K = ttb.ktensor([x.copy() for x in fac], lam.copy())
         f, g = _pyfg(a["fid"])
@@ -107,6 +175,8 @@ def run_impl(c):
             G1 = fg.evaluate(K, X, None if w is None else w.copy(), None, g)
             return {"F": tgen.exact(F), "G": [tgen.obs_matrix(np, x) for x in G], "F1": tgen.exact(F1),
                     "G1": [tgen.obs_matrix(np, x) for x in G1]}
+        if c.op == "estimate_lam":
+            return U.run_estimate_lam(a, fac, f, g)
         if c.op == "estimate":
             subs = np.array(a["subs"], dtype=int).reshape((len(a["subs"]), len(a["shape"])))
             xs = np.array(a["xs"], dtype=float)
@@ -142,16 +212,22 @@ def coq_check(c, o):
     a = c.args
     if "exc" in o:
         return "false"
+    if c.op == "setup":
+        return U.check_setup(a, o)
     if c.op == "handle":
         return "true" if U.compare_handles(a["name"], a["pts"], o["vals"]) is None else "false"
-    if not _ints([v for k, v in o.items()]):
-        return "false"
     shp = a["shape"]
     As = _gmats(a["factors"])
+    if c.op == "estimate_lam":
+        return U.check_estimate_lam(a, o, As)
+    if not _ints([v for k, v in o.items()]):
+        return "false"
     if c.op == "mttkrps":
         T = tgen.gdense(shp, a["data"])
         return (f"mats_eqb (zmttkrps {T} {As} {gnat(a['R'])}) {_gmats(o['G'])} && "
-                f"mats_eqb (zmttkrps {T} {As} {gnat(a['R'])}) {_gmats(o['one'])}")
+                f"mats_eqb (zmttkrps {T} {As} {gnat(a['R'])}) {_gmats(o['one'])} && "
+                f"Nat.eqb (min_split {gnlist(shp)}) {gnat(o['split'])} && "
+                f"mats_eqb (mttkrps_py Z 0%Z 1%Z Z.add Z.mul {gnlist(shp)} (den_dense 0%Z {T}) {As} {gnat(a['R'])}) {_gmats(o['G'])}")
     fid = gnat(a["fid"])
     if c.op == "evaluate":
         K = tgen.gktensor(a["lam"], a["factors"])
@@ -181,6 +257,8 @@ def oracle(c, o):
         return f"admissible request raised {o['exc']}: {o.get('msg')}"
     if c.op == "handle":
         return U.compare_handles(a["name"], a["pts"], o["vals"], against_derivative=True)
+    if c.op == "setup":
+        return U.oracle_setup(a, o)
     return U.oracle_tensor(c.op, a, o)
 
 
